@@ -500,8 +500,8 @@ func (p *parser) parseMapLiteral() Node {
 		return mapLit
 	}
 	types := make([]*Type, 0, len(mapLit.Pairs))
-	for _, n := range mapLit.Pairs {
-		types = append(types, n.Type())
+	for _, key := range mapLit.Order { // source order: combineTypes depends on the order of its arguments
+		types = append(types, mapLit.Pairs[key].Type())
 	}
 	sub := combineTypes(types)
 	for key, val := range mapLit.Pairs {
